@@ -465,11 +465,11 @@ pub fn check_run(
                     let mut ccfg = cfg.clone();
                     ccfg.log_cache_max_items = None;
                     ccfg.log_cache_capacity = None;
-                    let spec = crate::ops::Spec { prop: prop.to_string(), run_seed: c.k as u64, cfg: ccfg, ops, sched: crate::ops::Sched::Default, faults: vec![], flush_batch: 1024, lower_term_reappend: false };
+                    let spec = crate::ops::Spec { prop: prop.to_string(), run_seed: c.k as u64, cfg: ccfg.clone(), ops, sched: crate::ops::Sched::Default, faults: vec![], flush_batch: 1024, lower_term_reappend: false };
                     let or = crate::exec::Oracles { prop: prop.to_string(), model_eq: true, restart_eq: true, ..Default::default() };
                     // the continuation runs on the very instance that performed the recovery (a fresh
                     // open of the already repaired directory would hide what recovery left in memory)
-                    let (_r2, kept) = eval_image(&img, &cfg, img_dir, true);
+                    let (_r2, kept) = eval_image(&img, &ccfg, img_dir, true);
                     let Some(kept) = kept else { continue };
                     let cont = crate::exec::continue_on(kept, &spec, &or, img_dir, facts.prefix[j].clone());
                     if std::env::var("SIM_DEBUG_CONT").is_ok() {
@@ -484,7 +484,9 @@ pub fn check_run(
                         eprintln!("    violations: {:?}", cont.violations.iter().map(|v| (&v.class, &v.detail)).collect::<Vec<_>>());
                     }
                     for v in &cont.violations {
-                        push(&mut viols, format!("continuation:{}", v.class), format!("after recovery from crash {:?} (state = S_{j}): op #{}: {}", c, v.op_index, v.detail), c.clone());
+                        // the history that led to the image decides the family, not the continuation alone
+                        let vclass = if facts.family_lower { v.class.replace("monotone-family", "lower-term-family") } else { v.class.clone() };
+                        push(&mut viols, format!("continuation:{}", vclass), format!("after recovery from crash {:?} (state = S_{j}): op #{}: {}", c, v.op_index, v.detail), c.clone());
                     }
                     // second-level: the machine loses power while the recovered process runs. Bytes
                     // the dead process wrote but never synced are still only in the page cache.
